@@ -61,6 +61,11 @@ type c20Chain struct {
 	blocks   map[chainhash.Hash]*wire.MsgBlock
 	utxos    map[wire.OutPoint]*wire.TxOut
 
+	// Blocks above best are "not mined yet": invisible to every query
+	// until setBest moves the tip (future-height tests).
+	heightOf   map[chainhash.Hash]int64
+	utxoHeight map[wire.OutPoint]int64
+
 	// counters, read by the harness for labels only.
 	nGetBlock int
 	nGetUtxo  int
@@ -74,7 +79,26 @@ func c20NewChain(best int32) *c20Chain {
 		byHeight: make(map[int64]chainhash.Hash),
 		blocks:   make(map[chainhash.Hash]*wire.MsgBlock),
 		utxos:    make(map[wire.OutPoint]*wire.TxOut),
+
+		heightOf:   make(map[chainhash.Hash]int64),
+		utxoHeight: make(map[wire.OutPoint]int64),
 	}
+}
+
+// setBest moves the chain tip; blocks up to it become visible.
+func (c *c20Chain) setBest(best int32) {
+	c.mu.Lock()
+	defer c.mu.Unlock()
+	c.best = best
+}
+
+// hashAt returns the hash of the block stored for a height (zero if none),
+// whether visible or not.
+func (c *c20Chain) hashAt(height uint32) chainhash.Hash {
+	c.mu.Lock()
+	defer c.mu.Unlock()
+
+	return c.byHeight[int64(height)]
 }
 
 // addBlock stores a block at the given height. Every output of every
@@ -96,6 +120,7 @@ func (c *c20Chain) addBlock(height uint32, txs []*wire.MsgTx,
 	defer c.mu.Unlock()
 	c.byHeight[int64(height)] = h
 	c.blocks[h] = blk
+	c.heightOf[h] = int64(height)
 	for _, tx := range txs {
 		txid := tx.TxHash()
 		for i, out := range tx.TxOut {
@@ -104,6 +129,7 @@ func (c *c20Chain) addBlock(height uint32, txs []*wire.MsgTx,
 				continue
 			}
 			c.utxos[op] = out
+			c.utxoHeight[op] = int64(height)
 		}
 	}
 }
@@ -120,7 +146,7 @@ func (c *c20Chain) GetBlockHash(height int64) (*chainhash.Hash, error) {
 	c.mu.Lock()
 	defer c.mu.Unlock()
 	h, ok := c.byHeight[height]
-	if !ok {
+	if !ok || height > int64(c.best) {
 		// btcd: "-1: Block number out of range", bitcoind:
 		// "Block height out of range".
 		return nil, fmt.Errorf("-1: Block number out of range")
@@ -134,7 +160,7 @@ func (c *c20Chain) GetBlock(hash *chainhash.Hash) (*wire.MsgBlock, error) {
 	defer c.mu.Unlock()
 	c.nGetBlock++
 	b, ok := c.blocks[*hash]
-	if !ok {
+	if !ok || c.heightOf[*hash] > int64(c.best) {
 		return nil, fmt.Errorf("-5: Block not found")
 	}
 
@@ -147,7 +173,7 @@ func (c *c20Chain) GetBlockHeader(hash *chainhash.Hash) (*wire.BlockHeader,
 	c.mu.Lock()
 	defer c.mu.Unlock()
 	b, ok := c.blocks[*hash]
-	if !ok {
+	if !ok || c.heightOf[*hash] > int64(c.best) {
 		return nil, fmt.Errorf("-5: Block not found")
 	}
 	hdr := b.Header
@@ -164,7 +190,7 @@ func (c *c20Chain) GetUtxo(op *wire.OutPoint, _ []byte, _ uint32,
 	defer c.mu.Unlock()
 	c.nGetUtxo++
 	out, ok := c.utxos[*op]
-	if !ok {
+	if !ok || c.utxoHeight[*op] > int64(c.best) {
 		return nil, btcwallet.ErrOutputSpent
 	}
 
@@ -366,9 +392,10 @@ func (g *c20Graph) node(k route.Vertex) (models.Node, int) {
 // gossiper
 
 type c20Ctx struct {
-	g     *AuthenticatedGossiper
-	graph c20GraphView
-	chain *c20Chain
+	g        *AuthenticatedGossiper
+	graph    c20GraphView
+	chain    *c20Chain
+	notifier *mockNotifier
 
 	bmu   sync.Mutex
 	bcast []lnwire.Message
@@ -396,8 +423,9 @@ func c20NewCtx(t *testing.T, wps *channeldb.WaitingProofStore,
 		gv = &c20Graph{newMockRouter(t, height)}
 	}
 	ctx := &c20Ctx{
-		graph: gv,
-		chain: chain,
+		graph:    gv,
+		chain:    chain,
+		notifier: newMockNotifier(),
 	}
 	selfDesc := &keychain.KeyDescriptor{
 		PubKey:     c20SelfPriv.PubKey(),
@@ -409,7 +437,7 @@ func c20NewCtx(t *testing.T, wps *channeldb.WaitingProofStore,
 		ChanSeries:  newMockChannelGraphTimeSeries(hID),
 		ChainIO:     chain,
 		ChainParams: &chaincfg.MainNetParams,
-		Notifier:    newMockNotifier(),
+		Notifier:    ctx.notifier,
 		Broadcast: func(_ map[route.Vertex]struct{},
 			msgs ...lnwire.Message) error {
 
